@@ -7,7 +7,9 @@ import (
 	"crypto/elliptic"
 	crand "crypto/rand"
 	"crypto/rsa"
+	"crypto/sha256"
 	"fmt"
+	hpke "github.com/cisco/go-hpke"
 	"math/big"
 
 	"github.com/cloudflare/circl/group"
@@ -705,6 +707,121 @@ func c02SuppliedBlinds(c *h.Ctx) {
 	}
 }
 
+// c02Type3OddKey: a type-3 request created for an issuer token key that is not 2048 bits, answered by an issuer played by
+// hand (HPKE open, raw RSA on the blinded message, response sealed under the request's response keys): finalization must
+// fail or return a token that verifies under that key — never succeed with a truncated, non-verifying authenticator.
+func c02Type3OddKey(c *h.Ctx, k *rsa.PrivateKey) {
+	seed := rnd(c, 32)
+	env := newT3WithKey(c, k, seed, map[string][]byte{"origin.example": rnd(c, 48)})
+	suite, _ := hpke.AssembleCipherSuite(hpke.DHKEM_X25519, hpke.KDF_HKDF_SHA256, hpke.AEAD_AESGCM128)
+	sk, pk, _ := suite.KEM.DeriveKeyPair(seed)
+	cfg := []byte{0x01, 0x00, 0x20, 0x00, 0x01, 0x00, 0x01}
+	encap := cat([]byte{0x01, 0x00, 0x20}, suite.KEM.SerializePublicKey(pk), []byte{0x00, 0x01, 0x00, 0x01})
+	nkid := sha256.Sum256(encap)
+	modLen := (k.N.BitLen() + 7) / 8
+	for r := 0; r < 2; r++ {
+		client := type3.NewRateLimitedClientFromSecret(rnd(c, 48))
+		chal, nonce := rnd(c, 20), rnd(c, 32)
+		det := map[string]any{"type": 3, "issuer_key_bits": k.N.BitLen()}
+		var st type3.RateLimitedTokenRequestState
+		var err error
+		pan, msg := h.Protect(func() { st, err = env.request(client, chal, nonce, rnd(c, 48), "origin.example") })
+		c.Count("type3:odd-key-size:request", 1, fmt.Sprint(k.N.BitLen(), r))
+		if pan {
+			det["panic"] = msg
+			c.Violation("request creation panics for an issuer key of another size", det)
+			return
+		}
+		if err != nil {
+			return // refused at creation: nothing outstanding
+		}
+		wire := st.Request().Marshal()
+		if len(wire) < 85+32 {
+			return
+		}
+		key, ect := wire[2:51], wire[85:len(wire)-96]
+		ctx, err := hpke.SetupBaseR(suite, sk, ect[:32], []byte("TokenRequest"))
+		if err != nil {
+			return
+		}
+		pt, err := ctx.Open(cat(cfg, []byte{0, 3}, key, nkid[:]), ect[32:])
+		if err != nil || len(pt) < 1+modLen {
+			c.Count("type3:odd-key-size:envelope-not-opened", 1, "")
+			return
+		}
+		m := new(big.Int).SetBytes(pt[1 : 1+modLen])
+		bs := new(big.Int).Exp(m, k.D, k.N).FillBytes(make([]byte, modLen))
+		secret, encapEnc := st.VerifResponseSecrets()
+		rn := rnd(c, 16)
+		keys := c.Model("t3_response_keys", secret, encapEnc, rn)
+		blk, _ := aes.NewCipher(keys[0])
+		gcm, _ := cipher.NewGCM(blk)
+		resp := cat(rn, gcm.Seal(nil, keys[1], bs, nil))
+		input := cat(u16b(3), nonce, sha256Bytes(chal), env.tokenKeyID)
+		valid := func(_ int, t tokens.Token) bool {
+			mm := t.Marshal()
+			return len(mm) > len(input) && bytes.Equal(mm[:len(input)], input) && pssOK(&k.PublicKey, input, mm[len(input):])
+		}
+		var o c02Out
+		o.pan, o.msg = h.Protect(func() {
+			t, e := st.FinalizeToken(resp)
+			o.err = e
+			if e == nil {
+				o.toks = []tokens.Token{t}
+			}
+		})
+		c02Judge(c, "type3:odd-key-size:hand-played-issuer", o, valid, 1, false, det)
+	}
+}
+
+// c02Type2Salts: the fixed-blind entry point of type 2 with PSS salts of other lengths than 48, honest issuer: a token that
+// comes out verifies with the parameters of the token type (SHA-384, MGF1, salt length 48), or the call fails.
+func c02Type2Salts(c *h.Ctx) {
+	key := rsaKey(0)
+	iss := type2.NewBasicPublicIssuer(key)
+	kid := iss.TokenKeyID()
+	for _, sl := range []int{48, 0, 1, 20, 32, 47, 49, 64, 96} {
+		chal, nonce := rnd(c, 20), rnd(c, 32)
+		blind := cat([]byte{0}, rnd(c, 255))
+		det := map[string]any{"type": 2, "salt_len": sl}
+		var st type2.BasicPublicTokenRequestState
+		var err error
+		pan, msg := h.Protect(func() {
+			st, err = type2.NewBasicPublicClient().CreateTokenRequestWithBlind(chal, nonce, kid, &key.PublicKey, blind, rnd(c, sl))
+		})
+		c.Count("type2:supplied-salt", 1, fmt.Sprint(sl))
+		if pan {
+			det["panic"] = msg
+			c.Violation("request creation with a supplied salt panics", det)
+			continue
+		}
+		if err != nil {
+			continue
+		}
+		resp, err := iss.Evaluate(st.Request())
+		if err != nil {
+			continue
+		}
+		input := cat(u16b(2), nonce, sha256Bytes(chal), kid)
+		valid := func(_ int, t tokens.Token) bool {
+			mm := t.Marshal()
+			return len(mm) == len(input)+256 && bytes.Equal(mm[:len(input)], input) && pssOK(&key.PublicKey, input, mm[len(input):])
+		}
+		var o c02Out
+		o.pan, o.msg = h.Protect(func() {
+			t, e := st.FinalizeToken(resp)
+			o.err = e
+			if e == nil {
+				o.toks = []tokens.Token{t}
+			}
+		})
+		c02Judge(c, "type2:supplied-salt:finalize", o, valid, 1, false, det)
+		if sl == 48 && (o.err != nil || o.pan) {
+			c.Violation("finalization fails for a 48-byte supplied salt", det)
+		}
+	}
+}
+
 func runC02(c0 *h.Ctx) {
 	c0.Parallel(5, func(part int, c *h.Ctx) {
 		switch part {
@@ -740,9 +857,17 @@ func runC02(c0 *h.Ctx) {
 			if err == nil {
 				c02Type2(c, []*rsa.PrivateKey{k3}, 64)
 			}
+			if err == nil {
+				c02Type3OddKey(c, k3)
+			}
 			if k1, err := rsa.GenerateKey(crand.Reader, 1024); err == nil {
 				c02Type2(c, []*rsa.PrivateKey{k1}, 64)
+				c02Type3OddKey(c, k1)
 			}
+			if k4, err := rsa.GenerateKey(crand.Reader, 4096); err == nil {
+				c02Type3OddKey(c, k4)
+			}
+			c02Type2Salts(c)
 		}
 	})
 }
